@@ -34,6 +34,7 @@ var c18Programs = []string{
 	"((x+1))\n", "a $(b; c) `d`\n", "a \"$x ${y:-z}\" 'q' \\n\n", "a &\n", "a; b &\n", "until a; do b; done\n", "if a; then b; elif c; then d; else e; fi\n", "a <<-E\n\tx\n\tE\n",
 	"case x in\nesac\n", "a \\\n", "( a\nb )\n", "{\na\n}\n", "a # c\n", "if a; then\n  ( (b); c )\nfi\n", "$( (a); b )\n",
 	"cat <<E | while a; do\n$((1 +\n2))\nE\n b\ndone\n", "cat <<E $((1 +\n2))\nx\nE\n", "a $(b\nc) <<E\nx $(d\ne) y\nE\n", "<<E cat $((1 +\n2)) | { f; }\ny\nE\n",
+	"case x in (a) ((1)) ;; esac\n", "case x in (a) b;; (c) ((2));; esac; ((3))\n", "case x in (a) b;; esac; (( x + 1 ))\n", "case x in (a) (b); ((c));; esac\n", "echo $(()) $((  ))\n",
 	"case x in a) foo; ;; b) bar ;; esac\n", "case x in a) foo; ;; b) bar; ;; c) baz & ;; esac\n", "case x in (a) b; c; ;; d) ;; e) f; ;; esac\n",
 	"if a; then b; fi; while c; do d; done\n", "if a; b; then c; fi\n", "while a; b; do c; done\n", "until a; do b; c; done\n", "for x in a; do b; c; done\n",
 	"if a; then b; elif c; d; then e; else f; fi\n", "{ a; b; }; ( c; d )\n", "a; b; c\n", "a & b & c &\n",
